@@ -152,7 +152,7 @@ var replayAliases = map[string]string{
 	"C03/formats-2byte": "C03/programs", "C03/indexed": "C03/programs",
 	"C01/join-long": "C01/join", "C03/join-long": "C03/join",
 	"C01/number-formats": "C01/programs", "C03/number-formats": "C03/programs", "C04/number-formats": "C04/programs", "C11/number-formats": "C11/formats",
-	"C07/byte-windows": "C07/arbitrary", "C07/counts": "C07/arbitrary", "C07/boundaries": "C07/arbitrary", "C07/alias-pairs": "C07/arbitrary",
+	"C07/byte-windows": "C07/arbitrary", "C07/counts": "C07/arbitrary", "C07/content-lengths": "C07/arbitrary", "C07/boundaries": "C07/arbitrary", "C07/alias-pairs": "C07/arbitrary",
 	"C08/concat-long": "C08/concat", "C15/w-grammar": "C15/helper", "C15/operand-kinds": "C15/helper", "C12/histories+hook": "C12/histories",
 	"C14/roundtrip-wide": "C14/roundtrip",
 }
